@@ -25,6 +25,31 @@ where
     ev.end();
 }
 
+/// `Wrapping<F>` implements Display by forwarding: with any width / precision / flag set it must print what F prints
+fn fw_ev<F: Ext>(ev: &mut Ev, lay: Lay, a: u128, fs: u8, w: Option<usize>, p: Option<usize>)
+where
+    F::Bits: BitsIo,
+{
+    let x: F = fb(a);
+    let wx = Wrapping(x);
+    ev.begin("fw", lay);
+    ev.arg(a);
+    ev.arg(fs as u128);
+    ev.arg_s(&w.map(|v| v.to_string()).unwrap_or_else(|| "-".into()));
+    ev.arg_s(&p.map(|v| v.to_string()).unwrap_or_else(|| "-".into()));
+    ev.sep();
+    let fw = Fmts { d: &wx, g: &x, b: &x, o: &x, x: &x, u: &x };
+    let ff = Fmts { d: &x, g: &x, b: &x, o: &x, x: &x, u: &x };
+    for f in [&fw, &ff].iter() {
+        let mut s = String::new();
+        match guard(&mut || s = fmt_one(f, 0, fs, w, p)) {
+            None => ev.t(s.as_bytes()),
+            Some(pn) => ev.p(&pn),
+        }
+    }
+    ev.end();
+}
+
 fn rt_ev<F: Ext>(ev: &mut Ev, lay: Lay, a: u128)
 where
     F::Bits: BitsIo,
@@ -136,6 +161,21 @@ where
         let a = if rng2.chance(1, 2) { rng2.next128() & lay.mask() } else { gen_bits(&mut rng2, lay) };
         rt_ev::<F>(ev, lay, a);
     }
+    // Display of Wrapping<F> under the specification grid (separate PRNG stream)
+    let mut rng3 = args.rng_for(lay, 110);
+    for _ in 0..(args.n / 2).max(4) {
+        let a = gen_fmt_value(&mut rng3, lay);
+        let fs = rng3.below(FLAGSETS.len() as u64) as u8;
+        let w = WIDTHS[rng3.below(WIDTHS.len() as u64) as usize];
+        let p = match rng3.below(5) {
+            0 => None,
+            1 => Some(0),
+            2 => Some(1 + rng3.below(4) as usize),
+            3 => Some(rng3.below(lay.f as u64 + 3) as usize),
+            _ => Some(rng3.below(60) as usize),
+        };
+        fw_ev::<F>(ev, lay, a, fs, w, p);
+    }
 }
 
 fn main() {
@@ -151,6 +191,10 @@ fn main() {
                     if (Lay::new($s, $n, $f)) == want {
                         if l[0] == "fr" {
                             rt_ev::<$fam<$u>>(&mut ev, want, a);
+                        } else if l[0] == "fw" {
+                            let w = if l[4] == "-" { None } else { Some(l[4].parse().unwrap()) };
+                            let p = if l[5] == "-" { None } else { Some(l[5].parse().unwrap()) };
+                            fw_ev::<$fam<$u>>(&mut ev, want, a, parse_hex(&l[3]) as u8, w, p);
                         } else {
                             let w = if l[5] == "-" { None } else { Some(l[5].parse().unwrap()) };
                             let p = if l[6] == "-" { None } else { Some(l[6].parse().unwrap()) };
